@@ -73,6 +73,7 @@ def prefixes(rng, n):
 
 
 def run(chk):
+    interaction_stream(chk)
     rng = random.Random(chk.seed)
     nfrag = 150 if chk.tier == 'quick' else 1500
     npre = 12 if chk.tier == 'quick' else 60
@@ -144,15 +145,19 @@ def run(chk):
     # level probes: a declaration nested right up to the parser's fixed cap is accepted / rejected alone exactly as
     # after any prefix - one leaked nesting level anywhere in the prefix flips the verdict
     probes = ['var x = ' + '(' * k + '1' + ')' * k for k in range(56, 68)] + ['var y = ' + '[]' * k + 'int{}' for k in range(28, 36)]
-    pp = [p_ for p_ in pres if p_] + [e + '\n' for e in genprog.OPTIONAL_FORMS]
+    from orch import interact
+    pp = [p_ for p_ in pres if p_] + [e + '\n' for e in genprog.OPTIONAL_FORMS] + [p_['text'][len('package p\n'):] for p_ in interact.programs()]
+    probes += ['var z = Point{1, 2}', 'var z = pkg.T{a: 1}.f', 'func zz() { p := Point{X: 1}; _ = p }']
     pa = R.impl([R.case_line('file', HEAD + q + '\n') for q in probes], robust=True)
     lv_cases, lv_meta = [], []
     for q, x0 in zip(probes, pa):
         for pre in pp:
-            lv_cases.append(('file', HEAD + pre + '\n' + q + '\n')); lv_meta.append((q, outcome(x0)[0], pre))
+            lv_cases.append(('file', HEAD + pre + '\n' + q + '\n')); lv_meta.append((q, outcome(x0), pre))
     la, lb = run_both(chk, 'level-probes', lv_cases, robust=True)
-    for (m, text), (q, k0, pre), x in zip(lv_cases, lv_meta, la):
-        k1 = outcome(x)[0]
+    for (m, text), (q, (k0, v0), pre), x in zip(lv_cases, lv_meta, la):
+        k1, v1 = outcome(x)
+        if k1 == k0 == 'ok' and erase(v1['decl'][-1]) != erase(v0['decl'][-1]):
+            chk.oracle_fail('level-probe-tree', m, text, 'different tree', 'the tree it has alone', 'a declaration is read differently after this prefix (composite literal vs block: the prefix left the nesting level changed)')
         if k1 != k0:
             chk.oracle_fail('level-probe', m, text, k1, k0, 'a declaration nested up to the cap is ' + ('rejected' if k0 == 'ok' else 'accepted') + ' after this prefix but not alone: the prefix left the nesting level changed')
     chk.count('level-probes', lv_cases, [t for m, t in lv_cases])
